@@ -62,6 +62,8 @@ Definition inv_ok (r : to_role) (dc : dec) (st : setk) : bool :=
   | RPrimary EJsonDumpsAlways, DJsonLoads true, SPlain None => true
   | RPrimary (EImagePair _), DSplitComma 0, SPlain None => true
   | RPartner _, DSplitComma 1, SPlain None => true
+  | RPrimary (EImagePair _), DRSplitComma 0, SPlain None => true
+  | RPartner _, DRSplitComma 1, SPlain None => true
   | _, _, _ => false
   end.
 
@@ -103,6 +105,10 @@ Definition not_json_const (t : str) : bool :=
 Definition aget (x : string) (a : attrs) : option fval :=
   match alookup x a with Some o => o | None => None end.
 
+(* the first half of the pair may contain commas when the reader splits at the LAST comma *)
+Definition pair_text_ok (dc : dec) (r : str) : bool :=
+  match dc with DRSplitComma _ => true | _ => no_comma r end.
+
 (* the value of attribute x is one its setter produces (documented type of the property) *)
 Definition val_ok (k : kind) (r : to_role) (dc : dec) (st : setk) (a : attrs) (x : string) : bool :=
   match r, dc, st with
@@ -135,12 +141,12 @@ Definition val_ok (k : kind) (r : to_role) (dc : dec) (st : setk) (a : attrs) (x
   | RPrimary (EImagePair y), _, _ =>
       match aget x a, aget y a with
       | None, None => true
-      | Some (FStr r), Some (FStr t) => no_comma r && no_comma t
+      | Some (FStr r), Some (FStr t) => pair_text_ok dc r && no_comma t
       | _, _ => false end
   | RPartner x0, _, _ =>
       match aget x0 a, aget x a with
       | None, None => true
-      | Some (FStr r), Some (FStr t) => no_comma r && no_comma t
+      | Some (FStr r), Some (FStr t) => pair_text_ok dc r && no_comma t
       | _, _ => false end
   | _, _, _ => false
   end.
@@ -163,6 +169,13 @@ Definition absent_reads (k : kind) (x : string) : option fval :=
   | Some (_, DFromJson c NKWrap, _) => Some (FObj c None)
   | _ => None
   end.
+
+(* an absent graph property reads as None for every attribute (no decoder wraps None any more) *)
+Definition absent_none (k : kind) : bool :=
+  forallb (fun x => match absent_reads k x with None => true | Some _ => false end) (data_attrs k).
+
+Definition wrapping_decoders (k : kind) : list string :=
+  filter (fun x => match absent_reads k x with None => false | Some _ => true end) (data_attrs k).
 
 Definition normalize (k : kind) (a : attrs) : attrs :=
   map (fun xo => (fst xo, match snd xo with Some v => Some v | None => absent_reads k (fst xo) end)) a.
